@@ -7,4 +7,6 @@ Extraction "model_dflt.ml"
   Tree.lookup Tree.sget Tree.userordered Tree.dup_inst Tree.sorted_sid Tree.key_vals
   Tree.canonb Tree.uniq_idsb Tree.schema_okb Tree.insert_node Tree.forest_eqb
   Implicit.d_new Implicit.clr_new Implicit.validate_all Implicit.implicit_all Implicit.net
+  Implicit.normalb Implicit.norm_snode Implicit.norm_level Implicit.cases_okb Implicit.active Implicit.schildren Implicit.is_inner
+  Implicit.is_dflt_of Implicit.is_expl_of Implicit.apply_changes Implicit.np_norm Implicit.np_flagsb Implicit.strip Implicit.changes_idb Implicit.apply_changes_all
   WithDefaults.wd_print_forest WithDefaults.rfc_view_forest WithDefaults.should_print.
